@@ -307,7 +307,10 @@ class C11(Prop):
     explanation = "representation invariant with ghost `accepted`; recompile/__init__/__call__/run_experiment/parse_source verified path by path incl. state-after-exception clauses and frame"
 
     def links(self, ctx):
-        return [link_evaluator]
+        # which texts are invalid is the recogniser's business: the LR tables (vs an independent LALR(1) construction, no
+        # defaulted accept state) serve 'an invalid recompile raises' as well
+        from vcore.links_gram import link_grammar
+        return [link_evaluator, link_grammar]
 
     def canaries(self, ctx):
         t = "pyab_experiment.experiment_evaluator.ExperimentEvaluator.recompile"
@@ -463,7 +466,7 @@ class C01(Prop):
     explanation = "havoc-free result terms + frames on binning, recompile, __call__, parse_source; sorted-set discipline and key-is-an-expression in the generator; confinement scan; cross-process transcripts (bounded)"
 
     def links(self, ctx):
-        return [link_binning, link_evaluator] + _gen() + _misc("link_sly_confinement", "link_transcripts")
+        return [link_binning, link_evaluator] + _gen() + _misc("link_sly_confinement", "link_transcripts", "link_pipeline")
 
     def canaries(self, ctx):
         return [gen_canary("unsorted-local-vars", "return sorted(self._local_vars)", "return list(self._local_vars)", r"local_vars/==sorted|deterministic-order|generate_key_definition/.*\["),
